@@ -166,6 +166,10 @@ def file_cases(rng, q):
         cases.append(("case flav=file", ops))
     for size in ([3000000] if q else [3000000, 6000000, 6291457]):
         cases.append(("case flav=file", ["wstart 1 %d 20 7" % size, "wire", "wstart 1 10 21 1", "wire"]))
+    # tiny socket buffers: dozens of kernel segments per transfer, short writes on calls the poller resumed
+    for size in ([70000, 300000] if q else [70000, 300000, 1000000, 2500000]):
+        # WriteAll only: how many bytes a plain AsyncWrite moves into a full socket is the kernel's choice
+        cases.append(("case flav=file", ["smallbuf", "wstart 1 %d 20 %d" % (size, rng.randrange(256)), "wire", "wstart 1 10 21 1", "wire"]))
     # both directions in flight together
     for _ in range(5 if q else 60):
         ops = ["rstart 1 10 10"]
